@@ -240,7 +240,7 @@ def run(prop, tier, family="close"):
                 process(buf[:])
                 del buf[:]
 
-        res = run_tlc("CloseStack", cfg, timeout=3600, on_line=on_line, simulate=sim, depth=ms if sim else None,
+        res = run_tlc("CloseStack", cfg, timeout=9000, on_line=on_line, simulate=sim, depth=ms if sim else None,
                       workers=1 if sim else None)
         if res.violation:
             raise Infra("CloseStack design-level check failed on %s: %s" % (cfg, res.violation))
